@@ -616,9 +616,27 @@ class _PointGrids:
         self.weights = np.ones(coords.shape[0])
 
 
-def _analyzer(mol, dms, nspin, coords):
+def _natural_orbitals(mol, dm):
+    """C, occ with dm = C diag(occ) C^T and C^T S C = 1 (natural orbitals of an arbitrary symmetric density matrix)."""
+    s = mol.intor("int1e_ovlp")
+    w, v = np.linalg.eigh(s)
+    sh = (v * np.sqrt(w)) @ v.T
+    shi = (v / np.sqrt(w)) @ v.T
+    occ, u = np.linalg.eigh(sh @ dm @ sh)
+    order = np.argsort(-occ)
+    return shi @ u[:, order], occ[order]
+
+
+def _analyzer(mol, dms, nspin, coords, with_orbitals=False):
     from ciderpress.pyscf.analyzers import RHFAnalyzer, UHFAnalyzer
-    ana = RHFAnalyzer(mol, dms[0]) if nspin == 1 else UHFAnalyzer(mol, np.stack(dms))
+    kw = {}
+    if with_orbitals:
+        no = [_natural_orbitals(mol, d) for d in dms]
+        if nspin == 1:
+            kw = dict(mo_coeff=no[0][0], mo_occ=no[0][1], mo_energy=-no[0][1])
+        else:
+            kw = dict(mo_coeff=np.stack([n[0] for n in no]), mo_occ=np.stack([n[1] for n in no]), mo_energy=-np.stack([n[1] for n in no]))
+    ana = RHFAnalyzer(mol, dms[0], **kw) if nspin == 1 else UHFAnalyzer(mol, np.stack(dms), **kw)
     ana.grids = _PointGrids(mol, coords)
     return ana
 
@@ -813,6 +831,17 @@ def _run_sdmx(case, rec, rng):
                       mechanism="sdmx:fast-vs-slow", detail={"class": cname, "spin": s})
             rec.check("sdmx_fast_vs_descriptors", float(np.max(np.abs(fdesc - feats["default"]) / rowmax)), tol_same,
                       mechanism="sdmx:fast-vs-descriptors-getter", detail={"class": cname, "spin": s})
+            # the other entry point of the getter: features returned TOGETHER with occupation derivatives (orbs=...), which
+            # goes through the reference generator's get_feat_and_occd - added after a seeded layout slip there
+            try:
+                ana_o = _analyzer(mol, [dms[s]] if nspin == 1 else dms, nspin, pts, with_orbitals=True)
+                okey = "O" if nspin == 1 else "O"
+                res_o = get_descriptors(ana_o, sobj, orbs={okey: [0]}, lambd=SDMX_LAMBDAS["default"])
+                fdesc_o = np.asarray(res_o[0])[s]
+                rec.check("sdmx_descriptors_with_orbs", float(np.max(np.abs(fdesc_o - feats["default"]) / rowmax)), tol_same,
+                          mechanism="sdmx:descriptors-getter[orbs]-vs-fast", detail={"class": cname, "spin": s})
+            except NotImplementedError:
+                rec.tag("sdmx_descriptors_with_orbs", "not implemented for %s" % cname)
             for k, (fam, j, ratio) in enumerate(flist):
                 total += 1
                 key = _sdmx_key(fam, j, ratio)
